@@ -150,7 +150,9 @@ func findSmallRewrites(pkgs map[string]*packages.Package, fresh []freshFunc) []t
 						if isSimpleOperand(info, e) {
 							continue
 						}
-						found = nestedIIFE(info, e, true)
+						// a literal call that is the whole statement's only expression is the flattener's business; as one
+						// of several results or right-hand sides it is hoisted like a nested one
+						found = nestedIIFE(info, e, len(exprs) == 1)
 						break
 					}
 					if found == nil {
